@@ -6,6 +6,10 @@ ids = [p['id'] for p in props]
 
 # id -> (level, technique, text, note)
 CLAIMED = {
+ "C23": ("exploration", "mutation-based totality monitor: catch_unwind + process-level crash/CPU-budget attribution per input",
+         "Tens of thousands of SQL texts harvested from the repository's own tests are mutated (token edits, truncation, splicing, nesting amplification, huge literals, unterminated openers, Unicode/NUL injection) and parsed; panics are caught in-process, stack overflows and CPU-budget overruns are attributed to the running input by the shard runner. Nine directed deep-nesting inputs witness the listed stack-overflow finding.",
+         "Parser runs on the shard's 8 MiB main thread; 'never hangs' is restated as <= 4 s CPU per <= 64 KiB input."),
+
  "C17": ("exploration", "reference-model monitor (BTreeMap multimap) on real page files + structural invariant walker over the verif_dump hook",
          "Random operation histories on empty and bulk-loaded trees over five key schemas (degree 5..~200) are checked answer-by-answer against an ordered multimap; the persisted node structure is dumped every 40 operations and checked for sorted keys, separator bounds, uniform leaf depth and leaf-chain completeness; the metadata page is re-loaded at the end.",
          "Row ids per key are kept small in random cases because of the listed page-overflow finding; the file is not reopened through NativeStorage::open_file (it truncates)."),
